@@ -26,6 +26,9 @@ ASSUMPTIONS = [
     "liveness is proved on the model under weak fairness of polling; on the code it is checked as "
     "'3 further complete polls after the last server event'",
     "database failures in the middle of an update of the client are not injected",
+    "restart: a process is stopped and started again between two of its own steps (Module.Shutdown, then a new Module on the same "
+    "storage engine): the server not between the two statements of a running get, the client not while a poll is in flight; "
+    "a crash in the middle of a database transaction is not injected; <= 2 restarts per behaviour",
 ]
 
 
@@ -44,14 +47,15 @@ _scratch = []
 
 # the deviation constants as the configs in spec/cfg carry them (= the current tree): F-C16-seedwipe has been repaired,
 # F-C16-shortlived is open
-CFG_DEFAULT = dict(RefetchOnSeedChange="TRUE", SupersedeMustOutlive="FALSE")
+CFG_DEFAULT = dict(RefetchOnSeedChange="TRUE", SupersedeMustOutlive="FALSE", RestartKeepsService="TRUE")
 
 
 def fixed_from_env():
     fixed = os.environ.get("VERIF_C16_FIXED", "")
     unfixed = os.environ.get("VERIF_C16_UNFIXED", "")
     return dict(RefetchOnSeedChange="FALSE" if "seedwipe" in unfixed else "TRUE",
-                SupersedeMustOutlive="TRUE" if "shortlived" in fixed else "FALSE")
+                SupersedeMustOutlive="TRUE" if "shortlived" in fixed else "FALSE",
+                RestartKeepsService="FALSE" if "restartkeeps" in unfixed else "TRUE")
 
 
 def variant(cfg, repl=None):
@@ -74,21 +78,39 @@ def features(b):
     """What a behaviour exercises: used to pick a diverse subset."""
     f = set()
     phase = "idle"
-    for s in b:
+    listed = 0          # accepted submissions since the server last lost its database
+    client_ts = resp_ts = 0     # timestamp the client holds / the one travelling in the response
+    reset_unseen = False        # the server lost its database and the client has not applied a response since
+    for i, s in enumerate(b):
         a = s["a"]
         if a == "Submit":
             f.add(("sub", s["kind"], s["e"], s["d"], s["res"]))
             if s["res"] == "accepted":
                 f.add(("during", phase, s["kind"]))
+                listed += 1
         elif a in ("Tick", "ServerReset"):
             f.add((a,))
             f.add(("during", phase, a))
+            if a == "ServerReset":
+                listed = 0
+                reset_unseen = True
+        elif a in ("ServerRestart", "ClientRestart"):
+            # where in the history: poll phase, what the database holds, which server event comes next
+            nxt = next((x["a"] + "/" + x.get("kind", "") for x in b[i + 1:]
+                        if x["a"] in ("Tick", "ServerReset") or (x["a"] == "Submit" and x["res"] == "accepted")), "none")
+            f.add((a, phase, min(listed, 2), nxt))
         elif a == "PollFirst":
             phase = "mid"
+            if reset_unseen:
+                # how the NEW list's timestamp relates to the one the client still holds (equal: only the seed tells them apart)
+                f.add(("poll-after-reset", "<" if listed < client_ts else "=" if listed == client_ts else ">", min(client_ts, 2)))
         elif a == "PollSecond":
             phase = "resp"
+            resp_ts = listed
         elif a == "ClientApply":
             phase = "idle"
+            if not s.get("out"):
+                client_ts, reset_unseen = resp_ts, False
             if s.get("out"):
                 f.add(("outage",))
         elif a == "ClientValidate":
@@ -106,6 +128,12 @@ def pick(behaviours, n, rnd):
     for k in keys:
         rnd.shuffle(by[k])
     out = []
+    # rare situations that must not depend on the luck of the draw: a poll after a server reset that meets the timestamp the
+    # client already holds (three of them, with a non-empty new list)
+    must = [k for k in keys if any(x[0] == "poll-after-reset" and x[1] == "=" and x[2] > 0 for x in k)]
+    for k in must[:3]:
+        if by[k]:
+            out.append(behaviours[by[k].pop()])
     while len(out) < n and keys:
         for k in list(keys):
             if by[k]:
@@ -177,19 +205,41 @@ def selftest_scripts():
     ])]
 
 
+def directed_scripts():
+    """Behaviours of Discovery.tla that do not depend on the luck of the draw: the server loses its database and its NEW list
+    reaches exactly the timestamp the client already holds (only the seed tells the two lists apart), with one or two entries,
+    followed by nothing / by one more registration."""
+    R = dict(a="ServerReset")
+    return [dict(id="directed-%d" % i, steps=st) for i, st in enumerate([
+        [S("s1")] + POLL + [R, S("s2")] + POLL,
+        [S("s1")] + POLL + [R, S("s2")] + POLL + [S("s3")] + POLL,
+        [S("s1"), S("s2")] + POLL + [R, S("s3"), S("s1")] + POLL,
+        [S("s1")] + POLL + [R, S("s1")] + POLL,
+    ])]
+
+
+def restart_selftest_scripts():
+    """Histories on which a server that re-initialised its service row at start-up would hand out a timestamp twice."""
+    return [dict(id="selftest-restart-%d" % i, steps=st) for i, st in enumerate([
+        [S("s1")] + POLL + [dict(a="ServerRestart"), S("s2")],
+        [S("s1"), S("s2"), dict(a="PollFirst"), dict(a="PollSecond"), dict(a="ServerRestart"), dict(a="ClientApply"), dict(a="ClientRestart"), S("s3")],
+    ])]
+
+
 def run_tlc_checks(quick, coverage):
     """The prescriptive design satisfies the invariants, action properties and the liveness property."""
     tier = "quick" if quick else "thorough"
     out = {}
     def one(name, cfg, workers):
-        r = vlib.tlc("MCDiscovery", cfg, workers=workers, timeout=2400, coverage=coverage and name in ("safety", "validate"))
+        r = vlib.tlc("MCDiscovery", cfg, workers=workers, timeout=2400, coverage=coverage and name in ("safety", "validate", "restart"))
         ok = r.ok
         if not ok:
             raise Inconclusive("model %s: violation=%s error=%s\n%s" % (cfg, r.violation, r.error, r.raw[-2500:]))
         return name, cfg, r
-    with ThreadPoolExecutor(max_workers=3) as ex:
+    with ThreadPoolExecutor(max_workers=4) as ex:
         futs = [ex.submit(one, "safety", "Discovery.safety.%s.cfg" % tier, 4),
                 ex.submit(one, "validate", "Discovery.validate.%s.cfg" % tier, 2),
+                ex.submit(one, "restart", "Discovery.restart.%s.cfg" % tier, 2 if quick else 4),
                 ex.submit(one, "live", "Discovery.live.%s.cfg" % tier, 2)]
         for f in futs:
             name, cfg, r = f.result()
@@ -211,6 +261,8 @@ def vacuity(models):
         ("SearchSound", dict(SearchUnexpiredOnly="FALSE"), "search without the expiry filter"),
         ("SearchSound", dict(ValidateMarksPassing="FALSE", _base="Discovery.validate.quick.cfg"),
          "a validation round that flags other rows than the ones that passed"),
+        ("TimestampCoversRows|RestartKeepsList|TimestampsStrictlyIncrease", dict(RestartKeepsService="FALSE", _base="Discovery.restart.quick.cfg"),
+         "a start-up that re-initialises the service row of a database that holds a list"),
     ]
     def one(case):
         want, repl, why = case
@@ -231,12 +283,14 @@ def vacuity(models):
     models.append(dict(vacuity_guards=res))
 
 
-def generate(quick, seed, rnd, n_exh, n_val, n_sim):
-    """Witnesses of the two descriptive generation models (main family; family "validate": an apply with an unavailable
-    verifier and background validation rounds) and random walks of the simulation model (everything combined)."""
+def generate(quick, seed, rnd, n_exh, n_val, n_rst, n_sim):
+    """Witnesses of the three descriptive generation models (main family; family "validate": an apply with an unavailable
+    verifier and background validation rounds; family "restart": the server / client process restarted on its database at every
+    point of a history) and random walks of the simulation model (everything combined)."""
     fams = (("main", "Discovery.gen.quick.cfg" if quick else "Discovery.gen.cfg", n_exh, 6),
-            ("validate", "Discovery.gen.validate.quick.cfg" if quick else "Discovery.gen.validate.cfg", n_val, 2))
-    with ThreadPoolExecutor(max_workers=3) as ex:     # 6 + 2 TLC workers, the simulation is single threaded
+            ("validate", "Discovery.gen.validate.quick.cfg" if quick else "Discovery.gen.validate.cfg", n_val, 2),
+            ("restart", "Discovery.gen.restart.quick.cfg" if quick else "Discovery.gen.restart.cfg", n_rst, 2 if quick else 4))
+    with ThreadPoolExecutor(max_workers=4) as ex:     # 6 + 2 + 2 TLC workers, the simulation is single threaded
         fg = [ex.submit(vlib.tlc, "MCDiscovery", variant(cfg), workers=w, timeout=2400) for _, cfg, _, w in fams]
         fs = ex.submit(vlib.tlc, "MCDiscovery", variant("Discovery.sim.cfg"), workers=1, simulate="num=%d" % n_sim, depth=45,
                        seed=seed, timeout=1200)
@@ -248,6 +302,8 @@ def generate(quick, seed, rnd, n_exh, n_val, n_sim):
         wit = g.printed
         if fam == "validate":   # the main family already covers behaviours without an outage
             wit = [b for b in wit if any(st.get("out") for st in b)]
+        if fam == "restart":
+            wit = [b for b in wit if any(st["a"] in ("ServerRestart", "ClientRestart") for st in b)]
         wit.sort(key=lambda b: json.dumps(b, sort_keys=True))
         c, k = pick(wit, n, rnd)
         chosen += [(fam, b) for b in c]
@@ -263,9 +319,9 @@ def generate(quick, seed, rnd, n_exh, n_val, n_sim):
 
 def judge(rep, prop, results, scripts, common):
     ninc = 0
-    stats = dict(checks=0, accepted=0, rejected=0, wipes=0, races=0, deferred=0, refetches=0, drift=0)
+    stats = dict(checks=0, accepted=0, rejected=0, wipes=0, races=0, deferred=0, refetches=0, restarts=0, drift=0)
     for r in results:
-        for k in ("checks", "accepted", "rejected", "wipes", "races", "deferred", "refetches"):
+        for k in ("checks", "accepted", "rejected", "wipes", "races", "deferred", "refetches", "restarts"):
             stats[k] += r.get(k, 0)
         stats["drift"] += len(r.get("drift") or [])
         sc = scripts[r["id"]]
@@ -300,21 +356,23 @@ def run(prop, tier, seed, replay=None):
 
     quick = tier == "quick"
     rnd = random.Random(seed)
-    n_exh, n_val, n_sim = (200, 100, 140) if quick else (1700, 700, 1000)
+    n_exh, n_val, n_rst, n_sim = (200, 100, 90, 140) if quick else (1700, 700, 700, 1000)
     common = dict(workers=6, final_polls=3)
 
     phases = {}
     # 1. behaviours from the descriptive model
-    gens, n_wit, n_buckets, chosen, sim = generate(quick, seed, rnd, n_exh, n_val, n_sim)
+    gens, n_wit, n_buckets, chosen, sim = generate(quick, seed, rnd, n_exh, n_val, n_rst, n_sim)
     phases["generate"] = round(time.time() - t0, 1)
     scripts = {}
     deck = Deck(rnd)
     for i, (fam, b) in enumerate(chosen):
-        sid = "%s%05d" % ("w" if fam == "main" else "v", i)
+        sid = "%s%05d" % (dict(main="w", validate="v", restart="r")[fam], i)
         scripts[sid] = dict(id=sid, steps=concretise(trim(b), rnd, deck))
     for i, b in enumerate(sim):
         sid = "s%05d" % i
         scripts[sid] = dict(id=sid, steps=concretise(trim(b), rnd, deck))
+    for d in directed_scripts():
+        scripts[d["id"]] = dict(id=d["id"], steps=concretise(d["steps"], rnd, deck))
     order = sorted(scripts.values(), key=lambda s: (0 if any(x["a"] == "Tick" for x in s["steps"]) else 1, s["id"]))
 
     # 2. in parallel: TLC proves the prescriptive design; the behaviours run on the real code
@@ -345,7 +403,7 @@ def run(prop, tier, seed, replay=None):
         models.append(dict(cfg=cfg, states=g.distinct, transitions=g.generated, role="behaviour generation (descriptive model)",
                            wall_s=round(g.wall, 1)))
     if not quick:
-        missing = [a for a in ("Submit", "Tick", "ServerReset", "PollFirst", "PollSecond", "ClientApply", "ClientValidate") if not cover.get(a)]
+        missing = [a for a in ("Submit", "Tick", "ServerReset", "ServerRestart", "ClientRestart", "PollFirst", "PollSecond", "ClientApply", "ClientValidate") if not cover.get(a)]
         if missing:
             raise Inconclusive("vacuity: actions never fire in the exhaustive run: %s" % missing)
         vacuity(models)
@@ -354,6 +412,12 @@ def run(prop, tier, seed, replay=None):
     st = vlib.run_driver(binary, dict(common, scripts=selftest_scripts(), sabotage="ts-after-rows"), timeout=300)
     caught = [r["id"] for r in st if any(v["kind"] == "converge-missing" and v["site"] == "other" for v in r["violations"])]
     selftest_ok = bool(st) and len(caught) == len(st)
+    # ... and a sabotaged RESTART (the harness re-initialises the service row after the module has started, as a defective
+    # start-up would) must be reported as a timestamp that goes back
+    st2 = vlib.run_driver(binary, dict(common, scripts=restart_selftest_scripts(), sabotage="restart-reinit"), timeout=300)
+    caught2 = [r["id"] for r in st2 if any(v["kind"] == "timestamp-not-increasing" for v in r["violations"])]
+    selftest_ok = selftest_ok and bool(st2) and len(caught2) == len(st2)
+    st, caught = st + st2, caught + caught2
 
     phases["vacuity+selftest"] = round(time.time() - t1 - phases["driver+models"], 1)
     # 4. verdicts from the real observables
@@ -366,7 +430,7 @@ def run(prop, tier, seed, replay=None):
     if not selftest_ok:
         # never masks a violation seen on the real code (Report.finish gives violations precedence)
         rep.inconclusive.append("oracle self-test failed: a response whose timestamp was read after its rows was not reported as a "
-                                "lost entry: %s" % json.dumps([{k: v for k, v in r.items() if k != "trace"} for r in st])[:800])
+                                "lost entry, or a service row re-initialised at a restart was not reported as a timestamp going back: %s" % json.dumps([{k: v for k, v in r.items() if k != "trace"} for r in st])[:800])
 
     # 5. recorded traces of the real code are validated by TLC against the specification
     good = [r for r in results if r.get("trace") and not r.get("error")]
@@ -385,17 +449,19 @@ def run(prop, tier, seed, replay=None):
     probe = min(len(traces), 40)
     tcfg = variant("Discovery.trace.cfg")
     acc, rej = vlib.validate_traces("TraceDiscovery", tcfg, traces[:probe], timeout=1500)
-    if len(rej) > probe // 4:
-        # does the code conform to the specification with a deviation repaired?
+    if len(rej) > probe // 4 and not rep.violations:
+        # does the code conform to the specification with a deviation repaired? (only asked when the real observables show no
+        # violation: the answer is a hint for the maintainer of the configurations, and every variant costs TLC runs)
         cur = fixed_from_env()
         for a in ("FALSE", "TRUE"):
             for b in ("FALSE", "TRUE"):
-                alt = dict(RefetchOnSeedChange=a, SupersedeMustOutlive=b)
-                if alt == cur:
-                    continue
-                a2, r2 = vlib.validate_traces("TraceDiscovery", variant("Discovery.trace.cfg", alt), traces[:probe], timeout=1500)
-                if len(r2) < len(rej):
-                    acc, rej, tcfg, best = a2, r2, variant("Discovery.trace.cfg", alt), alt
+                for c in ("TRUE", "FALSE"):
+                    alt = dict(RefetchOnSeedChange=a, SupersedeMustOutlive=b, RestartKeepsService=c)
+                    if alt == cur or len(rej) <= probe // 4:
+                        continue
+                    a2, r2 = vlib.validate_traces("TraceDiscovery", variant("Discovery.trace.cfg", alt), traces[:probe], timeout=1500)
+                    if len(r2) < len(rej):
+                        acc, rej, tcfg, best = a2, r2, variant("Discovery.trace.cfg", alt), alt
         if len(rej) <= probe // 4:
             rep.notes.append("NOTE: the recorded traces are behaviours of the specification with %s (not of the configured "
                              "descriptive variant): a deviation has been repaired in the code (or a repaired one is back), switch the constant in "
@@ -439,17 +505,17 @@ def run(prop, tier, seed, replay=None):
                witness_behaviours_available=n_wit, witness_feature_buckets=n_buckets,
                simulated_behaviours=len(sim), oracle_evaluations=stats["checks"],
                submissions_accepted=stats["accepted"], submissions_rejected=stats["rejected"],
-               client_wipes_on_seed_change=stats["wipes"],
+               client_wipes_on_seed_change=stats["wipes"], process_restarts_on_the_same_database=stats["restarts"],
                polls_with_a_commit_between_the_two_statements_of_get=stats["races"],
                steps_deferred_because_code_blocked=stats["deferred"], drift_notes=stats["drift"], inconclusive_scripts=ninc,
                oracle_selftest_scripts_caught=len(caught),
                known_findings_reproduced=sorted(rep.known), phases_s=phases, action_coverage=cover, exhaustive=False,
                concrete_defect_classes=len(set(REG_BAD) | set(RET_BAD)) + 4,
                rule="TLC exhausts the prescriptive Discovery model (invariants ListedOnlyVerified, OneLiveEntryPerSubject, TimestampsUnique, "
-                    "SearchSound, Converged; action properties TimestampsStrictlyIncrease, RetractionOnlyBySigner; liveness Converges under "
+                    "TimestampCoversRows, SearchSound, Converged; action properties TimestampsStrictlyIncrease, RestartKeepsList, RetractionOnlyBySigner; liveness Converges under "
                     "FairSpec); behaviours of the DESCRIPTIVE model (one witness per distinct terminal state and per distinct non-converged "
                     "state, chosen by feature cover, plus -simulate walks) are replayed step by step on the real discovery.Module pair with "
-                    "a gate between the two SQL statements of the server's get; the statement is evaluated on Get/Search/sqlite rows after "
+                    "a gate between the two SQL statements of the server's get and restarts of either module on its database; the statement is evaluated on Get/Search/sqlite rows after "
                     "every step and after 3 final polls; every recorded real trace is validated by TLC against TraceDiscovery.tla")
     for d in _scratch:
         shutil.rmtree(d, ignore_errors=True)
